@@ -13,6 +13,7 @@
 -/
 import SA.Model.SecSpell
 import SA.Gen.C04Dial
+import SA.Gen.C04Srv
 namespace SA.Security
 open SA.Handshake SA.Schemes
 
@@ -23,7 +24,65 @@ inductive Front
   | loop                      -- redirects to itself for ever
   | status                    -- answers 200 / 404
   | redirect (toTls : Bool)   -- answers 3xx, Location = the real plain (ws, http) or TLS (wss, https) server
+  | inject                    -- relays to the real PLAIN server, rewriting the client's opening HTTP request on the way
+  | srvpw                     -- no front-end: the packet SERVER's endpoint carries a shared secret, the client's does not
   deriving DecidableEq, Repr
+
+/-! ### the SERVER's `secure` argument (regenerated, `Gen.c04ServerSecureArgs`)
+
+What a server kind passes as the `secure` argument of AcceptConnection decides whether it advertises StartTLS and what
+its session reports.  It must be a fact about the transport the server itself terminated.  The classes the extractor
+recognises: the literal `false`; a field / local set only in `Startup` under a test of the endpoint's OWN configured
+scheme (so it is true exactly when the server created a TLS listener - C18's territory); the pass-through parameter of
+AcceptConnection.  Anything else (`other`: a request header, `r.TLS`, `r.URL`, the peer's handshake messages, the
+endpoint's password) is read pessimistically: the server says "secure" whenever somebody claims so. -/
+
+def serverKinds : List String := ["socket", "http", "packet", "stdio", "accept"]
+
+def serverSecureArgValue (cls : String) (ownListenerTls : Bool) : Bool :=
+  if cls == "false" then false
+  else if cls == "ownSchemeField" || cls == "ownSchemeVar" then ownListenerTls
+  else if cls == "paramPassThrough" then ownListenerTls     -- whatever the kind computed
+  else true
+
+/-- the `secure` argument a server kind hands to the handshake when its own listener is TLS / plain: every call site of
+    the kind is consulted (one claiming "secure" is enough); an unknown kind is read pessimistically -/
+def srvFlagOf (rows : List (String × String × String × String × String)) (kind : String) (ownListenerTls : Bool) : Bool :=
+  match rows.filter (fun r => r.1 == kind) with
+  | [] => true
+  | rs => rs.any (fun r => serverSecureArgValue r.2.2.2.2 ownListenerTls)
+
+def srvFlag (kind : String) (ownListenerTls : Bool) : Bool :=
+  srvFlagOf Gen.c04ServerSecureArgs kind ownListenerTls
+
+/-- `cellCore2` with the server's `secure` argument apart from what its carrier really is (`stls`) -/
+def cellCoreSrv (datagram noVerify dialTls s0 srvSecure stls scert must acc : Bool) : Cell2 :=
+  if dialTls != stls then .refused
+  else if dialTls && !(noVerify || acc) then .refused
+  else
+    let scfg : SrvCfg := ⟨srvSecure, if scert then .ok else .empty⟩
+    let p := honestPair scfg s0 acc
+    match p.client with
+    | .established _ t s _ =>
+      if must && !s then .refused
+      else
+        let echo := match p.server with
+          | .established _ ts _ _ => (t == .tls) == (ts == .tls)
+          | _ => false
+        .est t s echo (!(dialTls || t == .tls)) (if datagram then none else some dialTls)
+    | _ => .refused
+
+/-- the server's view as the relay reads it: does its 200 answer to the announce carry the StartTLS capability?
+    (`none` = the cell never reaches a server) -/
+def srvAdvertWith (flag : String → Bool → Bool) (s : Str) (scert : Bool) : Option Bool :=
+  match lookup (tableOf .upstream) s with
+  | none => none
+  | some ctor =>
+    let r := runOf .upstream ctor s
+    if ctor != "Http" || r.failed || r.tls then none
+    else some (supportTls ⟨flag "http" false, if scert then .ok else .empty⟩)
+
+def srvAdvert : Str → Bool → Option Bool := srvAdvertWith srvFlag
 
 /-- regenerated: this kind's Connect may open more than one carrier before the handshake (or assigns the flag after the
     first dial); an unknown kind is treated pessimistically -/
@@ -40,7 +99,7 @@ def frontKind (ctor : String) (s : Str) : Bool :=
 
 /-- one cell of the sweep; `follows kind` = the Connect of that kind opens a second carrier when the first dial is
     answered with a redirect / fails in TLS, keeping the flag it computed for the configured address -/
-def cellFrontWith (follows : String → Bool) (s : Str) (f : Front) (stls scert must insecure ca : Bool) : Cell2 :=
+def cellFrontWith2 (follows : String → Bool) (flag : String → Bool → Bool) (s : Str) (f : Front) (stls scert must insecure ca : Bool) : Cell2 :=
   match lookup (tableOf .upstream) s with
   | none => .badscheme
   | some ctor =>
@@ -65,6 +124,20 @@ def cellFrontWith (follows : String → Bool) (s : Str) (f : Front) (stls scert 
       else .refused
     | .loop => .refused
     | .status => .refused
+    -- a shared secret on the server's endpoint alone (packet kinds are answered `noserver` above as well): the AES layer
+    -- cannot come up (pbkdf2 hands kcp a 64-byte key, the packet server's Startup fails, notes/C04.md): no server, no
+    -- session.  A packet server that starts anyway and calls its carrier secure because a password is configured is
+    -- what this row is for.
+    | .srvpw => .noserver
+    | .inject =>
+      -- the rewriting front-end speaks plain HTTP towards the plain server; the model does not look at WHAT was
+      -- rewritten: nothing the request says reaches the `secure` argument (when the regenerated class says so)
+      if ctor != "Http" || r.tls || stls then .noserver
+      else if r.failed then .refused
+      else cellCoreSrv false false false (spellArg ctor r must) (flag "http" false) false scert must acc
+
+def cellFrontWith (follows : String → Bool) : Str → Front → Bool → Bool → Bool → Bool → Bool → Cell2 :=
+  cellFrontWith2 follows srvFlag
 
 def cellFront : Str → Front → Bool → Bool → Bool → Bool → Bool → Cell2 := cellFrontWith redials
 
@@ -79,6 +152,7 @@ def finalStls (f : Front) (stls : Bool) : Bool :=
 def hopsOf (s : Str) (f : Front) : Nat :=
   match f, lookup (tableOf .upstream) s with
   | .pass, _ => 1
+  | .inject, _ => 1
   | .tlsdrop, some ctor => if (runOf .upstream ctor s).tls then 2 else 1
   | _, _ => 2
 
